@@ -33,6 +33,15 @@ def numpy_pandas_coercible(series: pd.Series, type_: Any) -> pd.Series:
             data_type.coerce_value(x)
             return True
         except Exception:  # pylint:disable=broad-except
+            if pd.api.types.is_scalar(x) and pd.isna(x):
+                # coerce_value is only defined for non-null values: a null
+                # is coercible if the data type can hold it, which the
+                # vectorized coercion decides.
+                try:
+                    data_type.coerce(pd.Series([x], dtype=object))
+                    return True
+                except Exception:  # pylint:disable=broad-except
+                    return False
             return False
 
     return series.map(_coercible)
